@@ -467,13 +467,29 @@ def check_no_memoised_mutables(ctx, rule, roots, what):
     return n
 
 
+_lifting = []
+
+
 def lift(ctx, rule, label, mod, prop, rules, why, key_filter=None, floor=1):
     """Where one mechanism carries two properties, the findings of the rules that guard the mechanism are findings of both.
     Runs property `prop`'s rule module on the same repository and re-reports the violations of `rules` (optionally only the instances
     whose key passes key_filter) under `rule`; the number of obligations evaluated is the non-vacuity floor."""
     from ..report import Ctx as _Ctx
+    if prop in _lifting:
+        return 0        # (a cycle: A lifts from B and B lifts from A - the run that is already under way reports its own rules)
     sub = _Ctx(prop, ctx.repo, tier=ctx.tier, quiet=True)
-    mod.run(sub)
+    pushed = [x for x in (ctx.prop, prop) if x not in _lifting]
+    _lifting.extend(pushed)
+    try:
+        try:
+            mod.run(sub)
+        except AnalysisError:
+            # the other property's run lost its footing: what it established about the lifted rules before that point stands
+            if not [v for v in sub.violations if v['rule'] in rules and (key_filter is None or key_filter(v['key']))]:
+                raise
+    finally:
+        for x in pushed:
+            _lifting.remove(x)
     keep = lambda r, k: r in rules and (key_filter is None or key_filter(k))
     n = len([o for o in sub.obligations if keep(o['rule'], o.get('stmt', ''))])
     for v in sub.violations:
@@ -517,3 +533,258 @@ def str_given(text, name):
     if re.match(r"^(?:'' == %s|%s == ''|0 == len\(%s\)|len\(%s\) (?:==|<) (?:0|1)|len\(%s\) <= 0|not %s)$" % (n, n, n, n, n, n), text):
         return False
     return None
+
+
+def unproved_assert(ctx, rule, rs, root):
+    """a new `assert` whose condition the analysis cannot establish: recorded as undecided (exit 2 unless a violation is found elsewhere)"""
+    msg = '%s: cannot decide whether the assertion `%s` in %s holds on every path (if it fails, AssertionError escapes %s unhandled)' % (rule, rs.text[:70], rs.func.short, root.short)
+    if msg not in ctx.floor_failures:
+        ctx.floor_failures.append(msg)
+
+
+def _is_logging_call(call):
+    fn = call.func
+    return isinstance(fn, ast.Attribute) and fn.attr in ('debug', 'info', 'warning', 'warn', 'error', 'exception', 'critical', 'log') \
+        and isinstance(fn.value, ast.Name) and fn.value.id in ('logging', 'logger', 'log', '_logger', 'LOG')
+
+
+def _inside_logging_argument(node):
+    n = node
+    par = getattr(n, '_parent', None)
+    while par is not None and not isinstance(par, ast.stmt):
+        if isinstance(par, ast.Call) and _is_logging_call(par) and n is not par.func:
+            return True
+        n, par = par, getattr(par, '_parent', None)
+    return False
+
+
+def is_observer(f):
+    """a function that did not exist on the pinned tree and only reports: a docstring and one `return <expression>`, the expression without
+    assignments (walrus), awaits, yields or lambdas (an accessor, a __repr__)"""
+    from ..sim import is_new_function
+    if f.is_module_body or not is_new_function(f):
+        return False
+    body = [st for st in f.node.body if not (isinstance(st, ast.Expr) and isinstance(st.value, ast.Constant) and isinstance(st.value.value, str))]
+    if len(body) != 1 or not isinstance(body[0], ast.Return) or body[0].value is None:
+        return False
+    return not any(isinstance(x, (ast.NamedExpr, ast.Await, ast.Yield, ast.YieldFrom, ast.Lambda)) for x in ast.walk(body[0].value))
+
+
+def effective_readers(repo, f, node, _seen=None):
+    """Who reads the value that `node` (a load of a switch) yields in f?  f itself - unless the load is an argument of a logging call (the value
+    only goes into a diagnostic) or f is a freshly added observer (is_observer), which stands for the places its result is used: its callers,
+    by the same rule.  An observer nobody calls (a __repr__, an unused accessor) has no reader."""
+    if _inside_logging_argument(node):
+        return []
+    if not is_observer(f):
+        return [f]
+    _seen = _seen if _seen is not None else set()
+    if f in _seen:
+        return []
+    _seen.add(f)
+    out = []
+    cg = repo.callgraph()
+    for g, s in cg.callers_of(f):
+        for x in effective_readers(repo, g, s.node, _seen):
+            if x not in out:
+                out.append(x)
+    return out
+
+
+_ADDERS = ('append', 'insert', 'add', 'appendleft', 'extend_nonempty')
+_SHRINKERS = ('pop', 'remove', 'discard', 'clear', 'popitem', 'popleft', 'extend', 'update', 'sort', 'reverse', '__delitem__')
+
+
+def assert_cannot_fail_on_paths(repo, f, node):
+    """Is every path of f on which the assertion `node` fails infeasible by the emptiness facts collected on that path?  The theory is tiny:
+    a decision is read as a statement about whether one collection X is empty (truthiness or len(X) compared with 0 / 1, common.nonempty_atom);
+    `X.append(..)` / `X.add(..)` / `X.insert(..)` makes X non-empty; any other mutator or a store to X forgets what was known.  A failing
+    path that needs X both empty and non-empty cannot happen.  Returns the reason as text, or None (not established)."""
+    try:
+        paths = paths_of(repo, f, asserts='fork', unroll=1)
+    except AnalysisError:
+        return None
+    failing = [p for p in paths if p.outcome and p.outcome[0] == 'raise' and any(e.kind == 'raise' and e.node is node for e in p.events)]
+    if not failing or any(p.truncated for p in paths):
+        return None
+    for p in failing:
+        facts = {}
+        contradiction = False
+        for e in p.events:
+            if e.kind == 'raise' and e.node is node:
+                break
+            if e.kind == 'decide':
+                for x in set(re.findall(r'len\(([^()]*(?:\([^()]*\))?[^()]*)\)', e.text)) | ({e.text} if re.match(r'^[\w.]+$', e.text) else set()):
+                    pol = nonempty_atom(e.text, x)
+                    if pol is None:
+                        continue
+                    val = (e.value == pol)
+                    if x in facts and facts[x] != val:
+                        contradiction = True
+                    facts[x] = val
+            elif e.kind == 'call' and e.ftext and '.' in e.ftext:
+                recv, _, meth = e.ftext.rpartition('.')
+                if meth in _ADDERS:
+                    facts[recv] = True
+                elif meth in _SHRINKERS:
+                    facts.pop(recv, None)
+            elif e.kind in ('store', 'del') and e.target:
+                for x in list(facts):
+                    if e.target == x or e.target.startswith(x + '[') or x.startswith(e.target + '.'):
+                        facts.pop(x, None)
+            if contradiction:
+                break
+        if not contradiction:
+            return None
+    return 'on every path where it would fail the same collection would have to be both empty and non-empty'
+
+
+# ------------------------------------------------------------------------------------------------------------------------------
+# in-place mutation of an object reachable through a parameter (a small may-alias / may-mutate summary per function)
+# ------------------------------------------------------------------------------------------------------------------------------
+_MUTATING_METHODS = {'append', 'extend', 'insert', 'pop', 'remove', 'clear', 'add', 'discard', 'update', 'sort', 'reverse', 'setdefault', 'popitem'}
+
+
+def mutation_summaries(repo):
+    """{FuncInfo: (mut, ret)}: mut = indices of the parameters (self is 0 for methods) whose object the function may change in place - an
+    attribute store / augmented store / container mutation through the parameter or a local alias of it, or passing it on to a parameter that is
+    mutated; ret = indices of the parameters the function may return (so that `x = g(p)` can make x an alias of p).  Fixpoint over the call graph."""
+    k = ('mutsum', id(repo))
+    if k in _cache:
+        return _cache[k]
+    cg = repo.callgraph()
+    funcs = [f for f in repo.all_funcs() if not f.is_module_body]
+    summ = {f: (set(), set()) for f in funcs}
+
+    def callee_effects(f, call):
+        """[(target FuncInfo, {param index: argument node})]"""
+        site = cg.site_of(f, call)
+        out = []
+        if site is None:
+            return out
+        for g in cg.targets(site):
+            if g not in summ:
+                continue
+            ps = g.params()
+            off = 0
+            amap = {}
+            if g.cls is not None and not g.is_static() and ps and isinstance(call.func, ast.Attribute) and site.kind != 'ctor':
+                amap[0] = call.func.value
+                off = 1
+            elif site.kind == 'ctor':
+                off = 1
+            for i, a in enumerate(call.args):
+                if isinstance(a, ast.Starred):
+                    break
+                amap[off + i] = a
+            for kw in call.keywords:
+                if kw.arg in ps:
+                    amap[ps.index(kw.arg)] = kw.value
+            out.append((g, amap))
+        return out
+
+    changed = True
+    rounds = 0
+    while changed and rounds < 12:
+        changed = False
+        rounds += 1
+        for f in funcs:
+            ps = f.params()
+            mut, ret = summ[f]
+            for i, pname in enumerate(ps):
+                alias = {pname}
+                grew = True
+                nodes = list(f.body_nodes())
+                while grew:
+                    grew = False
+                    for n in nodes:
+                        if isinstance(n, ast.Assign) and len(n.targets) == 1 and isinstance(n.targets[0], ast.Name) and n.targets[0].id not in alias:
+                            v = n.value
+                            srcs = [v] + ([v.body, v.orelse] if isinstance(v, ast.IfExp) else [])
+                            hit = any(isinstance(x, ast.Name) and x.id in alias for x in srcs)
+                            if not hit and isinstance(v, ast.Call):
+                                for g, amap in callee_effects(f, v):
+                                    if any(isinstance(a, ast.Name) and a.id in alias and j in summ[g][1] for j, a in amap.items()):
+                                        hit = True
+                            if hit:
+                                alias.add(n.targets[0].id)
+                                grew = True
+                is_alias = lambda x: isinstance(x, ast.Name) and x.id in alias
+                m = False
+                for n in nodes:
+                    if isinstance(n, (ast.Assign, ast.AugAssign, ast.AnnAssign)):
+                        for t in (n.targets if isinstance(n, ast.Assign) else [n.target]):
+                            base = t
+                            while isinstance(base, (ast.Attribute, ast.Subscript)):
+                                base = base.value
+                            if base is not t and is_alias(base):
+                                m = True
+                    elif isinstance(n, ast.Delete):
+                        for t in n.targets:
+                            base = t
+                            while isinstance(base, (ast.Attribute, ast.Subscript)):
+                                base = base.value
+                            if base is not t and is_alias(base):
+                                m = True
+                    elif isinstance(n, ast.Call):
+                        fn = n.func
+                        if isinstance(fn, ast.Attribute) and fn.attr in _MUTATING_METHODS:
+                            base = fn.value
+                            while isinstance(base, (ast.Attribute, ast.Subscript)):
+                                base = base.value
+                            if is_alias(base) and base is not fn.value:
+                                m = True        # p.items.append(..): the parameter's own state (p.append(..) on a list parameter counts too)
+                            elif is_alias(fn.value):
+                                m = True
+                        for g, amap in callee_effects(f, n):
+                            if any(is_alias(a) and j in summ[g][0] for j, a in amap.items()):
+                                m = True
+                    elif isinstance(n, ast.Return) and n.value is not None:
+                        v = n.value
+                        srcs = [v] + ([v.body, v.orelse] if isinstance(v, ast.IfExp) else [])
+                        if any(is_alias(x) for x in srcs) and i not in ret:
+                            ret.add(i)
+                            changed = True
+                        if isinstance(v, ast.Call):
+                            for g, amap in callee_effects(f, v):
+                                if any(is_alias(a) and j in summ[g][1] for j, a in amap.items()) and i not in ret:
+                                    ret.add(i)
+                                    changed = True
+                if m and i not in mut:
+                    mut.add(i)
+                    changed = True
+    _cache[k] = (summ, callee_effects)
+    return _cache[k]
+
+
+def check_not_mutated_in_place(ctx, rule, attr, what, allowed_mutators=()):
+    """The object held in `<x>.attr` (e.g. the current filter) is changed only by storing a new object into the attribute (who may do that is a
+    writer rule): no load of the attribute - directly or through a local alias - flows into a position that is mutated in place (the receiver
+    or an argument of a call whose callee changes that parameter's object, mutation_summaries)."""
+    repo = ctx.repo
+    summ, callee_effects = mutation_summaries(repo)
+    n_uses = 0
+    for f in repo.all_funcs():
+        if f.is_module_body:
+            continue
+        nodes = list(f.body_nodes())
+        loads = [n for n in nodes if isinstance(n, ast.Attribute) and n.attr == attr and isinstance(n.ctx, ast.Load)]
+        if not loads:
+            continue
+        alias = set()
+        for n in nodes:
+            if isinstance(n, ast.Assign) and len(n.targets) == 1 and isinstance(n.targets[0], ast.Name) and n.value in loads:
+                alias.add(n.targets[0].id)
+        holds = lambda x: x in loads or (isinstance(x, ast.Name) and x.id in alias)
+        for n in nodes:
+            if not isinstance(n, ast.Call):
+                continue
+            for g, amap in callee_effects(f, n):
+                for j, a in amap.items():
+                    if holds(a):
+                        n_uses += 1
+                        bad = j in summ[g][0] and g.short not in allowed_mutators
+                        ctx.check(not bad, rule, '%s:not-mutated-in-place:%s->%s' % (attr, f.short, g.short), f.loc(n),
+                                  '%s is handed to %s in a position that is only read' % (what, g.short),
+                                  '%s is handed to %s as `%s`, which that function changes in place: %s changes without being replaced' % (what, g.short, g.params()[j], what))
+    ctx.floor(rule, n_uses, 2, 'calls that receive %s' % what)
